@@ -635,6 +635,23 @@ fn check_display<N: Nt>(v: N) -> CheckResult {
     ensure!(sb.as_str() == want, format!("display/{}", N::NAME), "Display of {:?} is {:?}, expected {:?}", v, sb.as_str(), want);
     let back: Option<N> = api(|| sb.as_str().parse::<N>()).ok();
     ensure!(back == Some(v), format!("display_parse_roundtrip/{}", N::NAME), "parse(display({:?})) = {:?}", v, back);
+    // Caller-supplied format parameters (width, fill, alignment, zero padding, sign, precision): the
+    // statement says "Display prints the decimal value", so whatever an implementation does with the
+    // parameters (honour them like the primitive, or ignore them), the text minus padding / sign /
+    // leading zeros must still be the complete decimal numeral.
+    macro_rules! with_spec {
+        ($($spec:literal),*) => { $( {
+            let mut sb = StackBuf::new();
+            let r = api(|| write!(sb, $spec, v));
+            ensure!(r.is_ok() && !sb.overflow, format!("display_error/{}", N::NAME), "Display with {:?} failed for {:?}", $spec, v);
+            let t = sb.as_str().trim_matches(|c| c == ' ' || c == '*');
+            let t = t.strip_prefix('+').unwrap_or(t);
+            let z = t.trim_start_matches('0');
+            let core = if z.is_empty() && !t.is_empty() { "0" } else { z };
+            ensure!(core == want, format!("display_with_format_parameters/{}", N::NAME), "format!({:?}, {:?}) is {:?}: not the decimal value {:?} (plus padding / sign)", $spec, v, sb.as_str(), want);
+        } )* };
+    }
+    with_spec!("{:6}", "{:<6}", "{:^7}", "{:*>8}", "{:06}", "{:+}", "{:.0}", "{:.1}", "{:.2}", "{:8.1}", "{:+08.3}", "{:<1.4}");
     Ok(true)
 }
 
